@@ -12,6 +12,12 @@ import (
 // non-ASCII error texts; set per behaviour by sequential drivers only).
 var MsgSuffix string
 
+// ErrShape varies how the scripted failures are built (set per behaviour by sequential drivers only):
+// "" = plain SMTPError; "421" = temporary failures carry the code 421 (service shutting down) instead of
+// 451; "nested" = the error wraps another annotated error with DIFFERENT SMTP fields (the shape
+// target.remote builds when every MX failed): the outer error is the one that counts.
+var ErrShape string
+
 // ErrFor returns an error value of the given class: "ok" (nil), "temp",
 // "perm" or "unspec" (no temporary/permanent marker at all).
 func ErrFor(res, where string) error {
@@ -19,11 +25,24 @@ func ErrFor(res, where string) error {
 	case "", "ok":
 		return nil
 	case "temp":
-		return &exterrors.SMTPError{Code: 451, EnhancedCode: exterrors.EnhancedCode{4, 3, 0},
+		e := &exterrors.SMTPError{Code: 451, EnhancedCode: exterrors.EnhancedCode{4, 3, 0},
 			Message: "scripted temporary failure at " + where + MsgSuffix, TargetName: "scripted"}
+		if ErrShape == "421" {
+			e.Code = 421
+		}
+		if ErrShape == "nested" {
+			e.Err = &exterrors.SMTPError{Code: 452, EnhancedCode: exterrors.EnhancedCode{4, 5, 3},
+				Message: "inner cause", TargetName: "inner"}
+		}
+		return e
 	case "perm":
-		return &exterrors.SMTPError{Code: 550, EnhancedCode: exterrors.EnhancedCode{5, 1, 1},
+		e := &exterrors.SMTPError{Code: 550, EnhancedCode: exterrors.EnhancedCode{5, 1, 1},
 			Message: "scripted permanent failure at " + where + MsgSuffix, TargetName: "scripted"}
+		if ErrShape == "nested" {
+			e.Err = &exterrors.SMTPError{Code: 554, EnhancedCode: exterrors.EnhancedCode{5, 4, 2},
+				Message: "inner cause", TargetName: "inner"}
+		}
+		return e
 	case "unspec":
 		return errors.New("scripted unclassified failure at " + where)
 	}
